@@ -1255,15 +1255,19 @@ func (r *replicateChannelHandler) getTSManagerChannelKey(channelName string) str
 
 func (r *replicateChannelHandler) innerHandleReplicateMsg(forward bool, msg *api.ReplicateMsg) {
 	msgPack := msg.MsgPack
+	verifYield("enter", r.targetPChannel, msg, nil)
 	p := r.handlePack(forward, msgPack, msg.TaskID, msg.PChannelName)
 	if p == api.EmptyMsgPack {
+		verifYield("dropped", r.targetPChannel, msg, nil)
 		return
 	}
 	p.CollectionID = msg.CollectionID
 	p.CollectionName = msg.CollectionName
 	p.PChannelName = msg.PChannelName
 	p.TaskID = msg.TaskID
+	verifYield("computed", r.targetPChannel, msg, p)
 	GetTSManager().SendTargetMsg(r.getTSManagerChannelKey(r.targetPChannel), p)
+	verifYield("enqueued", r.targetPChannel, msg, p)
 }
 
 func (r *replicateChannelHandler) collectionSourceSeekPosition(
